@@ -550,8 +550,15 @@ voc_close	(SF_PRIVATE *psf)
 		unsigned char byte = VOC_TERMINATOR ;
 
 
-		/* The terminator byte is not part of the audio data. */
-		psf->dataend = psf_fseek (psf, 0, SEEK_END) ;
+		/*
+		** The terminator byte is not part of the audio data, and it goes where the
+		** audio data ends : a file opened SFM_RDWR already ends with one, and the
+		** end of that file is one byte further.
+		*/
+		if (psf->blockwidth > 0 && psf->dataoffset > 0)
+			psf->dataend = psf_fseek (psf, psf->dataoffset + psf->sf.frames * psf->blockwidth, SEEK_SET) ;
+		else
+			psf->dataend = psf_fseek (psf, 0, SEEK_END) ;
 
 		/* Write terminator */
 		psf_fwrite (&byte, 1, 1, psf) ;
